@@ -1,6 +1,8 @@
 package constraint
 
 import (
+	stdjson "encoding/json"
+
 	schema "github.com/jsightapi/jsight-schema-core"
 	"github.com/jsightapi/jsight-schema-core/bytes"
 	"github.com/jsightapi/jsight-schema-core/errs"
@@ -46,7 +48,9 @@ type BoolKeeper interface {
 func newRegexFromRule(ruleValue bytes.Bytes) Constraint {
 	defer func() {
 		if r := recover(); r != nil {
-			if _, ok := r.(string); ok {
+			switch r.(type) {
+			case string, *stdjson.UnmarshalTypeError, *stdjson.SyntaxError:
+				// the pattern does not compile, or the value of the rule is not a string
 				panic(errs.ErrRegexInvalid.F(ruleValue.TrimSpaces().String()))
 			}
 			panic(r)
